@@ -314,7 +314,7 @@ theorem tag_roundtrip_lemma (prev t : Tag) (h : WFTag t) :
         intro kv hkv
         simp only [List.mem_cons, List.not_mem_nil, or_false] at hkv
         rcases hkv with rfl | rfl | rfl <;> assumption
-      simp only [deserializeTag, parseMessage_format _ _ wf, Option.getD_some, foldFields, tagField, n1, n2, n3,
+      simp only [deserializeTag, parseMessageP_format _ _ wf, Option.getD_some, foldFields, tagField, n1, n2, n3,
         if_true, if_false, hnum]
       rw [tagSetBody_wf _ m sig hbody]
   | some p =>
@@ -333,7 +333,7 @@ theorem tag_roundtrip_lemma (prev t : Tag) (h : WFTag t) :
         intro kv hkv
         simp only [List.mem_cons, List.not_mem_nil, or_false] at hkv
         rcases hkv with rfl | rfl | rfl | rfl <;> assumption
-      simp only [deserializeTag, parseMessage_format _ _ wf, Option.getD_some, foldFields, tagField, n1, n2, n3,
+      simp only [deserializeTag, parseMessageP_format _ _ wf, Option.getD_some, foldFields, tagField, n1, n2, n3,
         n4, n5, n6, if_true, if_false, hnum, hv2]
       rw [tagSetBody_wf _ m sig hbody]
 
@@ -491,7 +491,7 @@ theorem commit_roundtrip_lemma (c : Commit) (h : WFCommit c) :
       · intro kv hkv; simp only [List.mem_singleton] at hkv; subst hkv; exact wtree
       · intro kv hkv; simp only [List.mem_singleton] at hkv; subst hkv; exact wauthor
       · intro kv hkv; simp only [List.mem_singleton] at hkv; subst hkv; exact wcommitter
-    simp only [deserializeCommit, parseMessage_format _ _ wf, Option.getD_some]
+    simp only [deserializeCommit, parseMessageP_format _ _ wf, Option.getD_some]
     simp only [foldFields, commitField, if_true]
     rw [foldFields_append, fold_parents]
     simp only [foldFields, commitField, n1, n2, n3, n4, n5, if_true, if_false, hva2, hvc2]
